@@ -90,15 +90,15 @@ TEXT.update({
   "engine": "K+M",
   "technique": "Kani/CBMC on the default PixelDataWriter::encode (offset table) and Fragments::new on small data; z3 over the scalar MIR encoding of Fragments::new's length arithmetic (bit-vectors + f32/u64 as in the MIR)",
   "level": "Offset table of the default encode decided for 1-3 frames with all frame sizes 0-6; Fragments::new evenness/padding/concatenation on 8 (length, size) instances with symbolic bytes; the fragment-count arithmetic "
-           "decided for ALL data lengths <= 2^26 and all 2^32 fragment sizes (no byte dropped, no panic).",
+           "decided for all 2^32 fragment sizes and data lengths <= 2^16 plus the window [2^24-8, 2^24+24] (no byte dropped, no panic); the whole range <= 2^26 is beyond z3 (unknown).",
   "note": "frame_pixel_data on objects, From<Vec<Fragments>> and the total-length attribute written by transcode are outside; Vec/iterator calls in Fragments::new are contracts recording lengths",
  },
  "C25": {
-  "engine": "K",
+  "engine": "K+M",
   "technique": "bounded model checking (Kani/CBMC) of write_pdu -> read_pdu on small PDUs with symbolic fields, of strict prefixes and of strict-mode length checking on an arbitrary header",
-  "level": "Round trip, exact framing (length field == bytes that follow, all bytes consumed) and prefix => incomplete for release, abort (all sources), reject and a one-PDV P-DATA PDU with all field values symbolic; "
-           "strict mode decided for all 2^32 length fields and all valid maxima.",
-  "note": "A-ASSOCIATE-RQ/AC (string items) and the 16-bit item length overflow are not covered yet; tracing stubbed",
+  "level": "Round trip, exact framing (length field == bytes that follow, all bytes consumed) and prefix => incomplete for release, unknown-type and one-PDV P-DATA PDUs with all field values symbolic; "
+           "item length fields decided on the MIR of write_chunk_u16/u32: Ok is returned only when the written length field equals the content length (all lengths up to 2^20 / 2^33).",
+  "note": "A-ASSOCIATE-RQ/AC round trip, A-ABORT/RJ (bytes::Bytes pointer tagging vs CBMC) and strict mode are not covered; tracing stubbed; content builder of a chunk is a contract producing L bytes",
  },
  "C26": {
   "engine": "K",
